@@ -94,9 +94,22 @@ def r07_1(ctx: Ctx):
             return None
         r = _resolve(v, defs)
         ok = pred(v, r)
-        wrong = (not ok) and definite.get(kw, lambda v_, r_: False)(v, r)
+        wrong = (not ok) and (definite.get(kw, lambda v_, r_: False)(v, r) or _distorted(r))
         obs.append(ctx.ob("R07.1", f, v, status=OK if ok else VIOLATION if wrong else INCONCLUSIVE, detail=f"{kw} = {want_desc}" if ok else f"child built with {kw}=`{norm(r)[:80]}`; expected {want_desc}", construct=f"kw:{kw}"))
         return v
+
+    def _distorted(r):
+        """arithmetic around a value, a conditional that can yield a constant, or a copy (clone / copy / deepcopy) of a value:
+        whatever the operand is, the argument is not that operand itself"""
+        if isinstance(r, ast.BinOp) and any(isinstance(x, ast.Constant) and isinstance(x.value, (int, float)) for x in (r.left, r.right)):
+            return True
+        if isinstance(r, ast.BinOp) and any(isinstance(x, ast.IfExp) for x in (r.left, r.right)):
+            return True
+        if isinstance(r, ast.IfExp) and any(isinstance(x, ast.Constant) for x in (r.body, r.orelse)):
+            return True
+        if isinstance(r, ast.Call) and (norm(r.func).split(".")[-1] in ("clone", "copy", "deepcopy", "__copy__")):
+            return True
+        return False
 
     # positive evidence of a wrong argument (anything else that is not recognised is left undecided)
     definite = {
@@ -349,7 +362,10 @@ def r07_3(ctx: Ctx):
         got = {k: canon(v_, defs) for k, v_ in (amap or {}).items()}
         bad = {k: got.get(k) for k, v in want.items() if got.get(k) != v}
         # positive evidence: a field receives another parameter / a constant, or is missing from a fully keyworded call
-        wrong = amap is not None and any(got.get(k) is None or got.get(k) in f.params() or isinstance((amap or {}).get(k), ast.Constant) for k in bad)
+        def _dist(e):
+            return isinstance(e, ast.BinOp) or (isinstance(e, ast.IfExp) and any(isinstance(x, ast.Constant) for x in (e.body, e.orelse))) or (isinstance(e, ast.Call) and norm(e.func).split(".")[-1] in ("clone", "copy", "deepcopy"))
+
+        wrong = amap is not None and any(got.get(k) is None or got.get(k) in f.params() or isinstance((amap or {}).get(k), ast.Constant) or _dist((amap or {}).get(k)) for k in bad)
         obs.append(ctx.ob("R07.3", f, dia[0], status=OK if not bad else VIOLATION if wrong else INCONCLUSIVE, detail="init args carry id/level/config/started_at/seed/parent/random_seed unchanged" if not bad else f"init args are rewired: {bad}", construct="init-args"))
     return obs
 
